@@ -84,6 +84,12 @@ func c12Gen(seed int64, idx int) c12Case {
 			yang.S("grouping", "dia-c", yang.S("container", "dc", yang.S("uses", "dia-d"))),
 			yang.S("grouping", "dia-a", yang.S("uses", "dia-b"), yang.S("uses", "dia-c")),
 			yang.S("container", "dia-use", yang.S("uses", "dia-a")))
+		// refines whose target is a choice (a default case, mandatory) or a case (a description)
+		m.Add(yang.S("grouping", "rc-g",
+			yang.S("choice", "rch", yang.S("case", "ca", yang.S("leaf", "ra", yang.S("type", "string"))), yang.S("case", "cb", yang.S("leaf", "rb", yang.S("type", "string")))),
+			yang.S("choice", "rch2", yang.S("leaf", "rc", yang.S("type", "string")), yang.S("leaf", "rd", yang.S("type", "int8")))),
+			yang.S("container", "rc-use", yang.S("uses", "rc-g", yang.S("refine", "rch", yang.S("default", "cb")), yang.S("refine", "rch2", yang.S("mandatory", "true")),
+				yang.S("refine", "rch/ca", yang.S("description", "the first case")))))
 		yang.SortSections(m)
 	case 5:
 		// forward references: the uses stands before the grouping it names, and that grouping reaches
